@@ -111,6 +111,10 @@ fn segments() -> Vec<Seg> {
     v.push(Seg { text: "{wide_bar}".into(), out: Some("\u{1}".into()), brk_after: false });
     v.push(Seg { text: "{wide_msg}".into(), out: Some("\u{2}".into()), brk_after: false });
     v.push(Seg { text: "{pos}".into(), out: Some("0".into()), brk_after: false });
+    // a documented key that a style may also register as a custom key (\u{3}: "0 B" from the built-in,
+    // the tracker's output once one is registered under that name)
+    v.push(Seg { text: "{bytes}".into(), out: Some("\u{3}".into()), brk_after: false });
+    v.push(Seg { text: "{total_bytes:>7}".into(), out: Some("\u{4}".into()), brk_after: false });
     v.push(Seg { text: "{bar:4}".into(), out: Some("░░░░".into()), brk_after: false });
     v.push(Seg { text: "{\n".into(), out: Some("{".into()), brk_after: true });
     v.push(Seg { text: "\n".into(), out: None, brk_after: false });
@@ -191,6 +195,10 @@ fn fidelity(tier: Tier, shard: Shard, stats: &mut Stats) {
         if tpl.contains("{zz") {
             routes_v.push(3);
         }
+        // route 4 (templates with {bytes}/{total_bytes}): the style registers custom keys under these names
+        if tpl.contains("bytes") {
+            routes_v.push(4);
+        }
         let routes: &[usize] = &routes_v;
         let mut got_all = Vec::new();
         for &route in routes {
@@ -200,6 +208,7 @@ fn fidelity(tier: Tier, shard: Shard, stats: &mut Stats) {
                 .iter()
                 .map(|l| {
                     let l = l.replace('\t', &" ".repeat(tabw));
+                    let l = if route == 4 { l.replace('\u{3}', "CUS").replace('\u{4}', "    TOT") } else { l.replace('\u{3}', "0 B").replace('\u{4}', "    5 B") };
                     let rest = l.chars().filter(|c| *c != '\u{1}' && *c != '\u{2}').count();
                     let room = tw.saturating_sub(rest);
                     l.replace('\u{1}', &"░".repeat(room)).replace('\u{2}', &if room == 0 { String::new() } else { format!("M{}", " ".repeat(room - 1)) })
@@ -211,8 +220,13 @@ fn fidelity(tier: Tier, shard: Shard, stats: &mut Stats) {
                 Ok(Ok(s)) => s,
             };
             let style = style.with_key("k", |_: &ProgressState, w: &mut dyn Write| write!(w, "VAL").unwrap());
+            let style = if route == 4 {
+                style.with_key("bytes", |_: &ProgressState, w: &mut dyn Write| write!(w, "CUS").unwrap()).with_key("total_bytes", |_: &ProgressState, w: &mut dyn Write| write!(w, "TOT").unwrap())
+            } else {
+                style
+            };
             let got = match catch(|| {
-                let pb = if route == 0 {
+                let pb = if route == 0 || route == 4 {
                     bar_on(&catcher, Some(5), style).with_message("M")
                 } else if route == 2 {
                     let pb = bar_on(&catcher, Some(5), style).with_message("M");
@@ -258,6 +272,8 @@ fn fidelity(tier: Tier, shard: Shard, stats: &mut Stats) {
                     "fidelity: rendering does not follow the terminal width after a resize between two draws"
                 } else if route == 3 {
                     "fidelity: an unknown key expands to the output of a custom key registered by an earlier style of the bar"
+                } else if route == 4 {
+                    "fidelity: a placeholder whose key the style registered as a custom key does not expand to the tracker's output"
                 } else if route == 1 {
                     "fidelity: rendering differs from the derivation when the template is installed on a live bar with tab width 4"
                 } else if idx.iter().any(|&i| segs[i].text.starts_with("{ ") || segs[i].text.starts_with("{\t") || segs[i].text.starts_with("{\n")) {
